@@ -405,7 +405,9 @@ def get_functions_and_classes(
     emitter = get_emitter(emit_name)
     return tuple(
         print("\nGenerating: {name!r}".format(name=name))
-        or global__all__.append(name_tpl.format(name=name))
+        or global__all__.append(
+            ensure_valid_identifier(name_tpl.format(name=name))  # as the emitted symbol
+        )
         or emitter(
             get_parser(obj, parse_name)(obj),
             emit_default_doc=emit_default_doc,
